@@ -32,7 +32,7 @@ def run_part(rep, ctx):
     import random
     rng = random.Random(ctx.seed * 31 + 7)
     base = common.standard_programs(ctx, 150 if ctx.tier == 'quick' else 1500, n_per_carrier=1,
-                                    streams=('corpus', 'product', 'random', 'ood'))
+                                    streams=('corpus', 'product', 'random', 'ood', 'special'))
     progs = []
     for p in base:
         progs.append(p)
